@@ -18,6 +18,7 @@
 #define CPP_UTILITY_DBGROUP_RANDOM_ZIPF_HPP_
 
 // C++ standard libraries
+#include <algorithm>
 #include <array>
 #include <cmath>
 #include <cstddef>
@@ -230,7 +231,8 @@ class ApproxZipfDistribution
       -> double
   {
     if (id < static_cast<IntType>(kExactBinNum)) return zipf_cdf_.at(id);
-    return GetHarmonicNum(id + 1) / denom_;
+    // keep the CDF non-decreasing where the approximation takes over from the exact bins
+    return std::max(zipf_cdf_.back(), GetHarmonicNum(id + 1) / denom_);
   }
 
   /*############################################################################
